@@ -559,6 +559,7 @@ class Event(_Shared):
     def clear(self):
         S.yield_point('event.clear', self)
         self._f = False
+        S.rec('event.clear', self.role)
 
     def is_set(self):
         S.yield_point('event.is_set', self, self._f)
@@ -697,7 +698,7 @@ class Value(_Shared):
     @property
     def value(self):
         S.yield_point('value.get', self, self._v)
-        if str(S.cur.role).startswith('terminate_worker'):
+        if str(S.cur.role).startswith('terminate_worker') or str(getattr(self, 'role', '')).endswith('exception_job_id'):
             S.rec('value.get', self.role, self._v)
         return self._v
 
